@@ -113,13 +113,19 @@ Entry(qq, line) == LET t == Strip(line) IN IF t = <<>> THEN DefaultVal(qq) ELSE 
 \*   "append_input" io.append_input(ls)   "stream_append" io.input.stream.append(ls)                  - add to it
 \*   "clear_input" io.clear_input()   "io_inter" io.set_interactive(b)   "input_inter" io.input.set_interactive(b)
 \* Loading input never changes whether the user may be asked; the last interaction call decides.
-RECURSIVE EnvScript(_)
-EnvScript(r) == IF r = <<>> THEN <<>>
+\* Replacing the input (set_input, stream.set, clear_input) also forgets what was read: the next question starts at its
+\* first line; what is appended comes after the lines that are there.  EnvScriptOn(base, r): the input after the calls r
+\* were made on an I/O that held base.
+RECURSIVE EnvScriptOn(_, _)
+EnvScriptOn(base, r) ==
+                IF r = <<>> THEN base
                 ELSE LET o == r[Len(r)]
-                         p == EnvScript(SubSeq(r, 1, Len(r) - 1))
+                         p == EnvScriptOn(base, SubSeq(r, 1, Len(r) - 1))
                      IN IF o.op \in {"ctor", "set_input", "stream_set"} THEN o.ls
                         ELSE IF o.op \in {"append_input", "stream_append"} THEN p \o o.ls
                         ELSE IF o.op = "clear_input" THEN <<>> ELSE p
+EnvScript(r) == EnvScriptOn(<<>>, r)
+Replaces(r) == \E k \in 1..Len(r) : r[k].op \in {"ctor", "set_input", "stream_set", "clear_input"}
 RECURSIVE EnvInter(_)
 EnvInter(r) == IF r = <<>> THEN TRUE
                ELSE IF r[Len(r)].op \in {"io_inter", "input_inter"} THEN r[Len(r)].b
@@ -310,6 +316,10 @@ IsMember(qq, val) == IF qq.kind = "choice" /\ qq.multi
 
 Validated(qq) == qq.interactive /\ qq.validator
 Ended(o) == o.kind \in {"ret", "exc"}
+
+\* "no answer for a line nobody typed": a dialogue consumes only lines that the input holds (nothing stale from an
+\* input that was replaced)
+PTyped(sc, st, o) == o.consumed >= 0 /\ st + o.consumed <= Len(sc)
 
 \* harness sanity: the stream wrapper's counters are coherent
 HSane(sc, st, o) == /\ o.consumed >= 0 /\ st + o.consumed <= Len(sc) /\ o.reads >= o.consumed
